@@ -22,13 +22,15 @@ def known():
         return set(json.load(fh)['keys'])
 
 
-def _remap(o, lmap, bmap):
+def _remap(o, lmap, bmap, poff=0):
     """deep copy of a MIR JSON fragment with locals and block indices shifted"""
     if isinstance(o, dict):
         out = {}
         for k, v in o.items():
             if k == 'local' and isinstance(v, int) and not isinstance(v, bool):
                 out[k] = lmap(v)
+            elif k == 'promoted' and isinstance(v, int) and not isinstance(v, bool):
+                out[k] = v + poff
             elif k in ('target', 'otherwise') and isinstance(v, int):
                 out[k] = bmap(v)
             elif k == 'targets' and isinstance(v, list):
@@ -36,10 +38,10 @@ def _remap(o, lmap, bmap):
             elif k == 'succ' and isinstance(v, list):
                 out[k] = [bmap(x) for x in v]
             else:
-                out[k] = _remap(v, lmap, bmap)
+                out[k] = _remap(v, lmap, bmap, poff)
         return out
     if isinstance(o, list):
-        return [_remap(x, lmap, bmap) for x in o]
+        return [_remap(x, lmap, bmap, poff) for x in o]
     return o
 
 
@@ -58,7 +60,7 @@ def _splice(f, bi, g):
                       'rv': {'k': 'use', 'x': a}})
     new_blocks = []
     for b in g['blocks']:
-        nb = _remap(b, lmap, bmap)
+        nb = _remap(b, lmap, bmap, len(f.get('promoted', [])))
         if nb['term']['k'] == 'call':
             nb['term']['_spliced'] = True     # a trait call here is generic in the helper; in an instantiated caller the receiver is the caller's Self
         if nb['term']['k'] == 'return':
@@ -71,6 +73,8 @@ def _splice(f, bi, g):
     f['blocks'][bi]['term'] = {'k': 'goto', 'target': off_b}
     f['blocks'] = f['blocks'] + new_blocks
     f.setdefault('_inlined', []).append(g['key'])
+    if g.get('promoted'):
+        f['promoted'] = list(f.get('promoted', [])) + copy.deepcopy(g['promoted'])     # constants of the helper (e.g. a thread-local key) now belong to the caller
 
 
 def inline_new_helpers(facts):
